@@ -22,7 +22,7 @@ def worker(k):
         try: m = q.get_nowait()
         except queue.Empty: break
         shutil.rmtree(d, ignore_errors=True); os.makedirs(d)
-        subprocess.run(['rsync', '-a', '--exclude', '.git', '/tmp/sweep_repo/', d + '/repo/'], check=True)
+        subprocess.run(['rsync', '-a', '--exclude', '.git', '/tmp/sweep_repo3/', d + '/repo/'], check=True)
         p = os.path.join(d, 'repo', m['file'])
         src = open(p, 'rb').read()
         open(p, 'wb').write(src[:m['start']] + m['repl'].encode() + src[m['end']:])
